@@ -550,7 +550,7 @@ def units(prop, names, bit_aligned=True):
             heavy = c.startswith('recreate') or c in ('copy_assign', 'move_assign_no_propagate', 'copy_ctor')
             stub = c not in ARITH and not c.startswith('layout_') and c not in ('ctor_default', 'move_ctor', 'swap', 'move_assign_propagate')
             if c.startswith('layout_'):
-                checks.append(Check(c, 'hz_' + c, engine='Z', timeout=120, zopts={'jobs': 2}, gi_flags=['--unwind', '6'] if planar else [],
+                checks.append(Check(c, 'hz_' + c, engine='Z', timeout=300, zopts={'jobs': 2}, gi_flags=['--unwind', '6'] if planar else [],
                                     partition=('ALIGN_CASE', ALIGN_CASES), inputs=('d.x', 'd.y')))
                 # thorough: every alignment 0..64 and a spread up to 4096 (a symbolic alignment - `% align` by a symbolic divisor - times out in z3 for
                 # the wider pixel types, so it is not registered: an undecided check may not stand in a registered command)
@@ -559,7 +559,7 @@ def units(prop, names, bit_aligned=True):
                 checks.append(Check(c + '_more', 'hz_' + c, engine='Z', timeout=120, tier='thorough', zopts={'jobs': 2}, gi_flags=['--unwind', '6'] if planar else [],
                                     partition=('ALIGN_CASE', [a for a in ALIGN_CASES_THOROUGH if a not in ALIGN_CASES]), inputs=('d.x', 'd.y')))
                 continue
-            checks.append(Check(c, 'hz_' + c, engine='Z', timeout=150 if heavy else 100, zopts={'unsigned_overflow': c in ARITH, 'jobs': 8},
+            checks.append(Check(c, 'hz_' + c, engine='Z', timeout=400 if heavy else 300, zopts={'unsigned_overflow': c in ARITH, 'jobs': 8},
                                 defines=['ZSTUB_LAYOUT'] if stub else [], small=['SMALL_CEX'] if c.startswith('recreate') else (),
                                 gi_flags=['--unwind', '6'] if planar else [],
                                 inputs=('a._view.w', 'a._view.h', 'a._align_in_bytes', 'd.x', 'd.y', 'al')))
